@@ -13,6 +13,7 @@ import (
 	"os"
 	"os/exec"
 	"path/filepath"
+	"runtime"
 	"runtime/debug"
 	"sort"
 	"strconv"
@@ -189,9 +190,7 @@ func (c *Ctx) WantSample() bool { return len(c.Samples) < 6 }
 func (c *Ctx) Trace(f func() string) {
 	if c.trace != nil {
 		c.trace.Truncate(0)
-		c.trace.Seek(0, 0)
-		c.trace.WriteString(f())
-		c.trace.Sync()
+		c.trace.WriteAt([]byte(f()), 0)
 	}
 }
 
@@ -251,6 +250,20 @@ func RunShard(ck *Check, tier string, shard, n int, out string) {
 		}
 	}
 	t0 := time.Now()
+	// memory watchdog: unbounded growth (for example a policy table that grows with every call)
+	// must end as an attributable crash, not as a machine that swaps
+	go func() {
+		limit := uint64(3 << 30)
+		for {
+			time.Sleep(500 * time.Millisecond)
+			var ms runtime.MemStats
+			runtime.ReadMemStats(&ms)
+			if ms.HeapAlloc > limit {
+				fmt.Fprintf(os.Stderr, "fatal error: verif memory limit exceeded (heap %d MiB) after %d evaluations\n", ms.HeapAlloc>>20, c.Evals)
+				os.Exit(4)
+			}
+		}
+	}()
 	ck.Run(c)
 	r := shardResult{Evals: c.Evals, States: c.States, Transitions: c.Transitions, Traces: c.Traces,
 		Skipped: c.Skipped, Nontrivial: c.NontrivialN, Outcomes: c.Outcomes, Samples: c.Samples,
@@ -386,6 +399,33 @@ func Main(ck *Check, tier string) int {
 	}
 	wg.Wait()
 
+	// shards that died with a fatal runtime error are re-run (in parallel) in trace mode, which records the
+	// case in flight so that the crash can be attributed to one replayable case
+	type rerun struct {
+		r      shardResult
+		ok     bool
+		crash  string
+		stderr string
+		cur    []byte
+	}
+	reruns := make([]*rerun, n)
+	var wg2 sync.WaitGroup
+	for i := range results {
+		if results[i].ok || results[i].crash == "hard timeout" {
+			continue
+		}
+		wg2.Add(1)
+		go func(i int) {
+			defer wg2.Done()
+			tp := filepath.Join(work, fmt.Sprintf("trace-%s-%d.txt", ck.ID, i))
+			r2, ok2, crash2, se2 := runOne(i, tp)
+			cur, _ := os.ReadFile(tp)
+			os.Remove(tp)
+			reruns[i] = &rerun{r2, ok2, crash2, se2, cur}
+		}(i)
+	}
+	wg2.Wait()
+
 	total := shardResult{Outcomes: map[string]int64{}, SigCount: map[string]int{}, Notes: map[string]interface{}{}}
 	exhaustive := true
 	var crashes []Violation
@@ -397,26 +437,23 @@ func Main(ck *Check, tier string) int {
 				total.Caps = appendUniq(total.Caps, "a shard exceeded the hard time limit")
 				continue
 			}
-			// fatal runtime error: re-run in trace mode to attribute it to one case
-			tp := filepath.Join(work, fmt.Sprintf("trace-%s-%d.txt", ck.ID, i))
-			_, ok2, crash2, se2 := runOne(i, tp)
-			if ok2 {
-				// did not recur: nondeterministic infrastructure failure, not a verdict
-				fmt.Fprintf(os.Stderr, "check %s: shard %d failed once (%s) but not on re-run; ignoring\n%s\n", ck.ID, i, r.crash, r.stderr)
-				total.Caps = appendUniq(total.Caps, "a shard failed once and was re-run without result merge")
+			rr := reruns[i]
+			if rr.ok {
+				// did not recur under trace mode: use the re-run's (complete) result
+				fmt.Fprintf(os.Stderr, "check %s: shard %d failed once (%s) and completed on re-run; using the re-run\n", ck.ID, i, r.crash)
+				total.Caps = appendUniq(total.Caps, "a shard failed once and was re-run")
+				r = res{rr.r, true, "", rr.stderr}
+			} else {
+				if len(rr.cur) == 0 {
+					fmt.Fprintf(os.Stderr, "check %s: shard %d crashed before any case (%s)\n%s\n", ck.ID, i, rr.crash, rr.stderr)
+					total.Caps = appendUniq(total.Caps, "a shard crashed outside any case")
+					continue
+				}
+				cj, _ := json.Marshal(map[string]interface{}{"crash_case": string(rr.cur), "stderr": tail(rr.stderr, 1500)})
+				crashes = append(crashes, Violation{Property: ck.ID, Signature: "fatal|" + shortHash([]byte(stripDigits(firstLine(rr.stderr)))),
+					What: "fatal runtime error (unrecoverable) while executing case " + Q(tail(string(rr.cur), 300)) + ": " + firstLine(rr.stderr), Case: cj})
 				continue
 			}
-			cur, _ := os.ReadFile(tp)
-			os.Remove(tp)
-			if len(cur) == 0 {
-				fmt.Fprintf(os.Stderr, "check %s: shard %d crashed before any case (%s)\n%s\n", ck.ID, i, crash2, se2)
-				total.Caps = appendUniq(total.Caps, "a shard crashed outside any case")
-				continue
-			}
-			cj, _ := json.Marshal(map[string]interface{}{"crash_case": string(cur), "stderr": tail(se2, 1500)})
-			crashes = append(crashes, Violation{Property: ck.ID, Signature: "fatal|" + shortHash(cur),
-				What: "fatal runtime error (unrecoverable) while executing case: " + firstLine(se2), Case: cj})
-			continue
 		}
 		total.Evals += r.r.Evals
 		total.States += r.r.States
@@ -678,3 +715,13 @@ func UnB64(s string) []byte {
 
 // Q quotes a string for human-readable messages.
 func Q(s string) string { return strconv.QuoteToASCII(s) }
+
+func stripDigits(s string) string {
+	var b strings.Builder
+	for _, r := range s {
+		if r < '0' || r > '9' {
+			b.WriteRune(r)
+		}
+	}
+	return b.String()
+}
